@@ -209,11 +209,11 @@ def _redigest(kind, wire):
 DATA_EDITS = ['insert-unknown-in-signed-region', 'insert-unknown-in-siginfo', 'insert-unknown-in-metainfo', 'drop-metainfo',
               'drop-content', 'name-append', 'name-drop-last', 'content-append-byte', 'sigtype-change', 'keylocator-rename',
               'sigvalue-append-zero', 'sigvalue-drop-last', 'sigvalue-empty', 'sigvalue-remove-element', 'swap-meta-content',
-              'move-content-byte-into-name']
+              'move-content-byte-into-name', 'sigvalue-strip-leading-zero', 'sigvalue-prepend-zero']
 INTEREST_EDITS = ['insert-unknown-after-appparams', 'insert-unknown-in-siginfo', 'insert-unknown-before-sigvalue', 'name-append',
                   'name-drop-first', 'appparam-append-byte', 'sigtype-change', 'keylocator-rename', 'sigvalue-append-zero',
                   'sigvalue-drop-last', 'sigvalue-empty', 'sigvalue-remove-element', 'append-unknown-at-end',
-                  'drop-appparams']
+                  'drop-appparams', 'sigvalue-strip-leading-zero', 'sigvalue-prepend-zero']
 
 
 def apply_edit(kind, wire, name, redigest=True):
@@ -276,6 +276,12 @@ def apply_edit(kind, wire, name, redigest=True):
         ok = True
     elif name == 'sigvalue-drop-last' and sv is not None and sv[1]:
         sv[1] = sv[1][:-1]
+        ok = True
+    elif name == 'sigvalue-strip-leading-zero' and sv is not None and len(sv[1]) > 1 and sv[1][0] == 0:
+        sv[1] = sv[1][1:]
+        ok = True
+    elif name == 'sigvalue-prepend-zero' and sv is not None and sv[1]:
+        sv[1] = b'\x00' + sv[1]
         ok = True
     elif name == 'sigvalue-empty' and sv is not None and sv[1]:
         sv[1] = b''
@@ -428,6 +434,16 @@ def run_packet(case, rng, thorough, col=None, only_mut=None, wire_override=None)
     if wire_override is None:
         try:
             wire, rec = build(case, payload)
+            if case.get('want_leading_zero_signature'):
+                # a genuine packet whose SignatureValue happens to start with a zero octet (1 in 256 for RSA): the
+                # payload filler is stepped until the deterministic signature has that form
+                for step in range(1, 6000):
+                    sv = walk(kind, wire, strict=True)['sigvalue']
+                    if sv and sv[0] == 0:
+                        break
+                    case = dict(case, fill=(case.get('fill', 0) + 1) % 65536)
+                    payload = c01.resolve_payload(case)
+                    wire, rec = build(case, payload)
         except Exception as e:
             return [(f'C02:{fn}:raises', f'{fn} raised {type(e).__name__}: {e}', None)]
     else:
@@ -518,6 +534,12 @@ def gen_cases(tier, seed):
                 cases.append(one(kind, sk, {'len': 65536 + rng.randint(-3, 3)}))
             if thorough:
                 cases.append(one(kind, sk, {'len': 70000}))
+    # genuine RSA packets whose signature starts with a zero octet (stripping it must not stay accepted)
+    for kind in ('data', 'interest'):
+        for sk in ('rsa1024', 'rsa2048') if thorough else ('rsa1024',):
+            c = one(kind, sk, {'len': 24}, small=True)
+            c['want_leading_zero_signature'] = True
+            cases.append(c)
     if not thorough:
         cases.append(one('data', 'p256', {'len': 70000}))
         cases.append(one('interest', 'hmac', {'len': 70000}))
